@@ -14,6 +14,6 @@ CHECK = {'pkgs': ['core/parsigdb'],
           "store's own private state (accepted partials) after every call",
  'trusted': "the store's private `entries` map is taken as ground truth of what was accepted; synctest/vsync/runtime overlay as for C17",
  'rule': 'sequences of StoreInternal/StoreExternal calls + interleavings; distinct = distinct outcome vectors',
- 'budget_s': {'quick': 1300, 'thorough': 1500}}
+ 'budget_s': {'quick': 300, 'thorough': 1500}}
 CHECK["race_tests"] = {"core/parsigdb": "TestVerifRaceC07"}
 CHECK["assumptions"] = SCHEDX_ASSUME
